@@ -263,7 +263,12 @@ def own_address(chk: Check, repo: Repo) -> None:
             if local:
                 ln = [n.id for n in cfg.nodes if any(n.ast is x.stmt for x in local)]
                 dom = any(cfg.dominates(a, b) for a in ln for b in nodes)
-                from_crd = all(isinstance(x.stmt, (ast.Assign, ast.AnnAssign)) and "crd.individual_address" in ast.unparse(x.stmt.value) for x in local)
+                def crd_first(e: ast.AST) -> bool:
+                    """the assigned address itself, or an `or` chain that prefers it (anything else only as a fallback)"""
+                    if isinstance(e, ast.BoolOp) and isinstance(e.op, ast.Or):
+                        e = e.values[0]
+                    return isinstance(e, ast.Attribute) and e.attr == "individual_address" and isinstance(e.value, ast.Attribute) and e.value.attr == "crd"
+                from_crd = all(isinstance(x.stmt, (ast.Assign, ast.AnnAssign)) and crd_first(x.stmt.value) for x in local)
                 origin_ok = dom and from_crd and all(x.func is f or x.func.name == "__init__" for x in aw)
                 why = f"`{src}` is assigned before it, in the same function, from the connect response's CRD ({'yes' if from_crd else 'NO'}); other writers: {sorted({x.func.qualname for x in aw if x.func is not f})}"
             else:
